@@ -113,13 +113,22 @@ inductive IterEnd | eof | err
   deriving Repr, DecidableEq
 
 /--
+(The stream `s` is the *decompressed* input.  When `tar_open_stream` has put a decompressor in front — `tar->compressed`, /repo
+d69b61b — `it_next` reads the rest of the compressed stream at the end of the archive and turns a decompressor error into a
+failure; on the byte stream modelled here that drain changes nothing: whatever follows the end marker is ignored.)
+
 The directory iterator driven like tar2sqfs drives it: `next`, read the file stream of every regular file
 to its end, `next`, …  `skip` = `record_size` + `padding` still to be skipped before the next header.
 -/
 def iterLoop (cfg : ReadCfg) (want : Nat) : Nat → Bytes → Nat → List IterEntry → List IterEntry × IterEnd
   | 0, _, _, acc => (acc, .err)
   | f + 1, s, skip, acc =>
-    match readHeaderWith cfg (s.drop skip) with
+    -- iterator.c:184-194: `record_size`, then `padding` are skipped with `sqfs_istream_skip`, which fails when the input ends
+    -- first (two calls; the second is reached only if the first succeeded, so together: fewer than `skip` bytes left = error)
+    match istreamSkip s skip with
+    | none => (acc, .err)
+    | some s0 =>
+    match readHeaderWith cfg s0 with
     | .eof => (acc, .eof)
     | .err => (acc, .err)
     | .ok d s' =>
